@@ -11,8 +11,11 @@ func zzPair() { vAssert("tables-are-mutual-inverses", vInverseTables(alphabet, b
 // ZZ_C07_b58_bytes: Decode(Encode(b)) == b for every byte string; leading zeros <-> leading '1'.
 func ZZ_C07_b58_bytes() {
 	zzPair()
-	n := vCase("n", 0, vParam("maxbytes", 8))
+	n := vCase("n", vParam("minbytes", 0), vParam("maxbytes", 8))
 	b := vIntBytes("b", n)
+	if vParam("nolead", 0) == 1 && n > 0 {
+		vAssume(b[0] != 0) // targeted long-input variants: no leading zero byte
+	}
 	orig := append([]byte(nil), b...)
 	s := Encode(b)
 	vAssert("encode-pure", vEqBytes(b, orig))
